@@ -50,16 +50,11 @@ def sh(cmd, cwd=None, timeout=600, env=None, stdin=None):
         return 124, out + "\n[timeout after %ss]" % timeout
 
 
-def coq_make(log=None):
-    """Build the hand-written development (no-op when up to date). One builder at a time."""
-    os.makedirs(BUILD, exist_ok=True)
-    with open(os.path.join(BUILD, ".coqlock"), "w") as lk:
-        fcntl.flock(lk, fcntl.LOCK_EX)
-        rc, out = sh([os.path.join(VERIF, "bin", "mkcoq")], cwd=VERIF, timeout=3000)
-        if rc != 0:
-            return False, out
-        rc, out = sh("set -o pipefail; timeout 3000 make -j16 2>&1 | tail -n 60", cwd=COQ, timeout=3100)
-        return rc == 0, out
+def coq_make(targets=()):
+    """Build the hand-written development, or only the given .vo targets with their dependencies
+    (no-op when up to date)."""
+    rc, out = sh([os.path.join(VERIF, "bin", "coqbuild")] + list(targets), cwd=VERIF, timeout=3100)
+    return rc == 0, out
 
 
 class Check:
@@ -106,8 +101,17 @@ class Check:
         self.failures.append({"signature": signature, "what": what, "case": case})
 
     # ------------------------------------------------------------------ Coq
-    def coq_make(self):
-        ok, out = coq_make()
+    def coq_targets(self, dirs=None):
+        """.vo targets of this property: coq/<dir>/*.v for each dir (default: the property id) + Properties/<pid>.v"""
+        t = []
+        for d in (dirs or [self.pid]):
+            t += sorted(glob.glob(os.path.join(COQ, d, "*.v")))
+        t.append(os.path.join(COQ, "Properties", self.pid + ".v"))
+        return [os.path.relpath(x, COQ) + "o" for x in t if os.path.exists(x)]
+
+    def coq_make(self, dirs=None):
+        """Build only what this property needs (other properties' files cannot break this check)."""
+        ok, out = coq_make(self.coq_targets(dirs))
         self.note("coq make:", "ok" if ok else "FAILED", out[-3000:] if not ok else "")
         if not ok:
             self.break_("proof", "make -C coq (hand-written development does not build)", out)
